@@ -85,6 +85,8 @@ struct RetrieveRequestState {
     QVector<MamMessage> messages;
     QVector<QXmppMessage> processedMessages;
     uint runningDecryptionJobs = 0;
+    // set once the result IQ has been received: messages arriving later don't belong to the page
+    bool resultReceived = false;
 
     void finish()
     {
@@ -154,7 +156,10 @@ bool QXmppMamManager::handleStanza(const QDomElement &element)
             auto itr = d->ongoingRequests.find(queryId.toStdString());
             if (itr != d->ongoingRequests.end()) {
                 // future-based API
-                itr->second.messages.append(std::move(message));
+                // (ignore messages arriving after the result IQ while messages are being decrypted)
+                if (!itr->second.resultReceived) {
+                    itr->second.messages.append(std::move(message));
+                }
             } else {
                 // signal-based API
                 Q_EMIT archivedMessageReceived(queryId, parseMamMessage(message, Unencrypted));
@@ -306,6 +311,7 @@ QXmppTask<QXmppMamManager::RetrieveResult> QXmppMamManager::retrieveMessages(con
         // parse IQ
         auto &iq = state.iq;
         iq.parse(std::get<QDomElement>(result));
+        state.resultReceived = true;
 
         // decrypt encrypted messages
         if (auto *e2eeExt = client()->encryptionExtension()) {
